@@ -529,6 +529,28 @@ theorem float_not_five (n : String) (h : MC.Gen.Prefs.floatNames.contains n = tr
   simp only [five, List.mem_cons, List.not_mem_nil, or_false] at hn
   rcases hn with e | e | e | e | e <;> subst e <;> exact absurd h (by decide)
 
+/-- **the host's route selects the host's language** (C15's second way of selecting a language): once `LanguageAuto = v` is accepted,
+the language in force — the one the separators are derived from — is the normalised `v` -/
+theorem languageAuto_in_force (E : Env) (s s' : PState) (v : String) (hs : Shape s) (h : setPreference E s "LanguageAuto" v = .ok s') :
+    ∃ v', normLanguage v = some v' ∧ prefToString s' "LanguageAuto" = some v' ∧ prefToString s' "Language" = some "Auto" ∧
+      curLanguage s' = v' := by
+  obtain ⟨v', hnorm, hla, hcase⟩ := setPreference_cases E s s' "LanguageAuto" v h
+  obtain ⟨hv1, hlang⟩ := hla rfl
+  have hn := hnorm (Or.inr rfl)
+  have hsp : setStringPref E s "LanguageAuto" v' = .ok s' := by
+    rcases hcase with ⟨f, hf, _⟩ | ⟨b, hb, _⟩ | hsp
+    · exact absurd hf (by decide)
+    · exact absurd (by simp [five]) (bool_not_five s _ hs hb)
+    · exact hsp
+  have hrb := setStringPref_read_back E s s' "LanguageAuto" v' hsp
+  have hfr : prefToString s' "Language" = some "Auto" := by
+    rw [← hlang]
+    exact setStringPref_frame E s s' "LanguageAuto" v' "Language" hsp (by decide) (by decide)
+  refine ⟨v', hn, hrb, hfr, ?_⟩
+  rcases normLanguage_ok v v' hn with e | ⟨hv2, hv3⟩
+  · exact absurd e hv1
+  · rw [curLanguage_of _ _ hfr]; unfold effLanguage; simp [hrb, hv2, hv3]
+
 /-- **one accepted `set_preference` keeps the invariant** (unless it writes one of the two derived preferences itself) -/
 theorem sepInv_step (E : Env) (s s' : PState) (n v : String) (hs : Shape s) (hi : SepInv s)
     (h : setPreference E s n v = .ok s') (h1 : n ≠ "DecimalSeparators") (h2 : n ≠ "BlockSeparators") :
